@@ -80,6 +80,16 @@ class LinearRecorder(_Base):
         return self._logged_score(X)
 
 
+class BothRecorder(LinearRecorder):
+    """Exposes decision_function AND predict_proba (like LogisticRegression): mokapot scores with the decision
+    function and must calibrate those scores like for any other estimator with a decision function."""
+
+    def predict_proba(self, X):
+        X = np.asarray(X, dtype=float)
+        p = 0.5 + 0.5 * self._raw(X) / (1.0 + np.abs(self._raw(X)))
+        return np.column_stack([1 - p, p])
+
+
 class ProbaRecorder(_Base):
     """Same learner but only predict_proba (no calibration path in brew)."""
 
@@ -194,6 +204,7 @@ def make_search(inner):
 
 ESTIMATORS = {
     "linear": LinearRecorder,
+    "both": BothRecorder,
     "proba": ProbaRecorder,
     "memo": MemorisingRecorder,
     "constant": ConstantRecorder,
